@@ -157,10 +157,13 @@ theorem vis_clsName (g : Graph) (s : State) (n : Nat) (ph : Phase) : clsName (vi
 theorem vis_dryRun (g : Graph) (s : State) (i : Nat) : ((vis g s).node i).dryRun = (g.node i).dryRun := by
   obtain ⟨su, cl, h, _⟩ := vis_node g s i; rw [h]
 
-/-- the edges of the visible graph: those of the full graph between two parsed nodes -/
+/-- the edges of the visible graph: those of the full graph between two parsed nodes that are not hidden themselves
+(`edgeCode`: the edge below a flat node appears when that flat node is expanded) -/
 theorem mem_vis_edges (g : Graph) (s : State) (b : Nat) (e : Nat × List String) :
-    (e ∈ ((vis g s).node b).setup ↔ e ∈ (g.node b).setup ∧ s.hidden.contains b = false ∧ s.hidden.contains e.1 = false) ∧
-    (e ∈ ((vis g s).node b).cleanup ↔ e ∈ (g.node b).cleanup ∧ s.hidden.contains b = false ∧ s.hidden.contains e.1 = false) := by
+    (e ∈ ((vis g s).node b).setup ↔ e ∈ (g.node b).setup ∧ s.hidden.contains b = false ∧ s.hidden.contains e.1 = false ∧
+      s.hidden.contains (edgeCode g e.1 b) = false) ∧
+    (e ∈ ((vis g s).node b).cleanup ↔ e ∈ (g.node b).cleanup ∧ s.hidden.contains b = false ∧ s.hidden.contains e.1 = false ∧
+      s.hidden.contains (edgeCode g b e.1) = false) := by
   unfold vis
   by_cases he : s.hidden.isEmpty = true
   · have : s.hidden = [] := List.isEmpty_iff.mp he
@@ -176,37 +179,41 @@ theorem mem_vis_edges (g : Graph) (s : State) (b : Nat) (e : Nat × List String)
       · simp [hb]
       · simp [hb, List.mem_filter]
 
+/-- adjacency in the direction it is recorded: `a` is a parent of `b` through an edge that is not hidden, or a child -/
+def AdjE (g : Graph) (s : State) (a b : Nat) : Prop :=
+  (a ∈ (g.node b).setup.map (·.1) ∧ s.hidden.contains (edgeCode g a b) = false) ∨
+  (a ∈ (g.node b).cleanup.map (·.1) ∧ s.hidden.contains (edgeCode g b a) = false)
+
 theorem adj_vis_iff (g : Graph) (s : State) (a b : Nat) :
-    Adj (vis g s) a b ↔ Adj g a b ∧ s.hidden.contains b = false ∧ s.hidden.contains a = false := by
-  unfold Adj
+    Adj (vis g s) a b ↔ AdjE g s a b ∧ s.hidden.contains b = false ∧ s.hidden.contains a = false := by
+  unfold Adj AdjE
   simp only [List.mem_map]
   constructor
   · rintro (⟨e, he, rfl⟩ | ⟨e, he, rfl⟩)
     · have := ((mem_vis_edges g s b e).1).mp he
-      exact ⟨Or.inl ⟨e, this.1, rfl⟩, this.2⟩
+      exact ⟨Or.inl ⟨⟨e, this.1, rfl⟩, this.2.2.2⟩, this.2.1, this.2.2.1⟩
     · have := ((mem_vis_edges g s b e).2).mp he
-      exact ⟨Or.inr ⟨e, this.1, rfl⟩, this.2⟩
-  · rintro ⟨⟨e, he, rfl⟩ | ⟨e, he, rfl⟩, h⟩
-    · exact Or.inl ⟨e, ((mem_vis_edges g s b e).1).mpr ⟨he, h⟩, rfl⟩
-    · exact Or.inr ⟨e, ((mem_vis_edges g s b e).2).mpr ⟨he, h⟩, rfl⟩
+      exact ⟨Or.inr ⟨⟨e, this.1, rfl⟩, this.2.2.2⟩, this.2.1, this.2.2.1⟩
+  · rintro ⟨⟨⟨e, he, rfl⟩, hc⟩ | ⟨⟨e, he, rfl⟩, hc⟩, h⟩
+    · exact Or.inl ⟨e, ((mem_vis_edges g s b e).1).mpr ⟨he, h.1, h.2, hc⟩, rfl⟩
+    · exact Or.inr ⟨e, ((mem_vis_edges g s b e).2).mpr ⟨he, h.1, h.2, hc⟩, rfl⟩
+
+theorem not_hidden_mono {s s' : State} (h : ∀ x, x ∈ s'.hidden → x ∈ s.hidden) (x : Nat)
+    (hx : s.hidden.contains x = false) : s'.hidden.contains x = false := by
+  cases hc : s'.hidden.contains x
+  · rfl
+  · have := h x (by simpa using hc)
+    simp at hx
+    exact absurd this hx
 
 /-- parsing more nodes only adds edges -/
 theorem adj_vis_mono (g : Graph) (s s' : State) (h : ∀ x, x ∈ s'.hidden → x ∈ s.hidden) (a b : Nat)
     (hab : Adj (vis g s) a b) : Adj (vis g s') a b := by
   rw [adj_vis_iff] at hab ⊢
-  refine ⟨hab.1, ?_, ?_⟩
-  · cases hc : s'.hidden.contains b
-    · rfl
-    · have := h b (by simpa using hc)
-      have h2 := hab.2.1
-      simp at h2
-      exact absurd this h2
-  · cases hc : s'.hidden.contains a
-    · rfl
-    · have := h a (by simpa using hc)
-      have h2 := hab.2.2
-      simp at h2
-      exact absurd this h2
+  refine ⟨?_, not_hidden_mono h _ hab.2.1, not_hidden_mono h _ hab.2.2⟩
+  rcases hab.1 with ⟨h1, h2⟩ | ⟨h1, h2⟩
+  · exact Or.inl ⟨h1, not_hidden_mono h _ h2⟩
+  · exact Or.inr ⟨h1, not_hidden_mono h _ h2⟩
 
 theorem edgeSym_vis (g : Graph) (s : State) (h : EdgeSym g) : EdgeSym (vis g s) := by
   intro a b
@@ -216,12 +223,12 @@ theorem edgeSym_vis (g : Graph) (s : State) (h : EdgeSym g) : EdgeSym (vis g s) 
     have h1 := ((mem_vis_edges g s b e).1).mp he
     have h2 := (h e.1 b).mp (List.mem_map.mpr ⟨e, h1.1, rfl⟩)
     obtain ⟨e', he', hb⟩ := List.mem_map.mp h2
-    exact ⟨e', ((mem_vis_edges g s e.1 e').2).mpr ⟨he', h1.2.2, by rw [hb]; exact h1.2.1⟩, hb⟩
+    exact ⟨e', ((mem_vis_edges g s e.1 e').2).mpr ⟨he', h1.2.2.1, by rw [hb]; exact h1.2.1, by rw [hb]; exact h1.2.2.2⟩, hb⟩
   · rintro ⟨e, he, rfl⟩
     have h1 := ((mem_vis_edges g s a e).2).mp he
     have h2 := (h a e.1).mpr (List.mem_map.mpr ⟨e, h1.1, rfl⟩)
     obtain ⟨e', he', hb⟩ := List.mem_map.mp h2
-    exact ⟨e', ((mem_vis_edges g s e.1 e').1).mpr ⟨he', h1.2.2, by rw [hb]; exact h1.2.1⟩, hb⟩
+    exact ⟨e', ((mem_vis_edges g s e.1 e').1).mpr ⟨he', h1.2.2.1, by rw [hb]; exact h1.2.1, by rw [hb]; exact h1.2.2.2⟩, hb⟩
 
 /-! ## events -/
 
